@@ -1,6 +1,7 @@
 (* Hand model of ChkStrTranscoder (w = 2) and ChkStrxTranscoder (w = 4): decode and _encode.
    Strings are lists of code points; decoding accepts only 7-bit bytes (one byte is decoded as
-   UTF-8 at a time), encoding writes len(str) bytes of the UTF-8 form (struct.pack "{n}s"). *)
+   UTF-8 at a time), encoding refuses anything but NUL-free 7-bit text (since fix cee72c9; before, it wrote the
+   first len(str) bytes of the UTF-8 form). *)
 From Coq Require Import String NArith List Bool.
 From RC Require Import lib.Result lib.Bytes lib.Utf8.
 Import ListNotations.
@@ -47,9 +48,12 @@ Fixpoint enc_offsets (w : nat) (remaining : N) (offs : list N) : result bytes :=
        | o :: r => do a <- pack w o; do b <- enc_offsets w (remaining - 1) r; Ok (a ++ b)
        end.
 
-(* struct.pack("{}s".format(len(s)), bytes(s, "utf-8")) + b"\0" *)
+(* encoded = bytes(s, "utf-8"); anything but NUL-free 7-bit text is refused (ValueError);
+   struct.pack("{}s".format(len(s)), encoded) + b"\0" *)
 Definition enc_string (s : list N) : result bytes :=
-  do u <- utf8_encode s; Ok (firstn (length s) u ++ [0]).
+  do u <- utf8_encode s;
+  if negb (Nat.eqb (length u) (length s)) || existsb (N.eqb 0) u then Raise ValueError
+  else Ok (firstn (length s) u ++ [0]).
 
 Fixpoint enc_strings (ss : list (list N)) : result bytes :=
   match ss with
